@@ -119,6 +119,51 @@ pub fn record(out: &mut dyn Write, r: &mut ChaCha20Rng, n: usize) {
         }
     }
     emit(out, json!({"k":"reset","build":BUILD}));
+    // operations that use the GENERATOR CONSTANTS as stored (affine mixed additions, sums, MSM bases, equality with
+    // a re-parsed copy): a constant kept in a non-canonical internal form behaves like the right value wherever it
+    // is multiplied first, and differently wherever its limbs are copied or compared
+    {
+        let one = le_pow2(0, 32);
+        macro_rules! genops {
+            ($G:ident, $grp:expr) => {{
+                type AO = <<Ours as Pairing>::$G as CurveGroup>::Affine;
+                type AR = <<Refe as Pairing>::$G as CurveGroup>::Affine;
+                let (go, gr) = (AO::generator(), AR::generator());
+                let variants: Vec<(&str, Vec<u8>, Vec<u8>, usize)> = vec![
+                    ("G + G (affine + affine)", ser(&(go + go).into_affine(), true), ser(&(gr + gr).into_affine(), true), 2),
+                    ("generator() += &G", ser(&{ let mut p = <Ours as Pairing>::$G::generator(); p += &go; p }.into_affine(), true),
+                        ser(&{ let mut p = <Refe as Pairing>::$G::generator(); p += &gr; p }.into_affine(), true), 2),
+                    ("[G, G, G].iter().sum()", ser(&[go, go, go].iter().sum::<<Ours as Pairing>::$G>().into_affine(), true),
+                        ser(&[gr, gr, gr].iter().sum::<<Refe as Pairing>::$G>().into_affine(), true), 3),
+                    ("G - G", ser(&(go.into_group() - go).into_affine(), true), ser(&(gr.into_group() - gr).into_affine(), true), 0),
+                    ("msm([G, G], [1, 1])", {
+                        use ark_ec::VariableBaseMSM;
+                        <<Ours as Pairing>::$G as VariableBaseMSM>::msm(&[go, go], &[SO::from(1u64), SO::from(1u64)]).map(|p| ser(&p.into_affine(), true)).unwrap_or_default()
+                    }, {
+                        use ark_ec::VariableBaseMSM;
+                        <<Refe as Pairing>::$G as VariableBaseMSM>::msm(&[gr, gr], &[SR::from(1u64), SR::from(1u64)]).map(|p| ser(&p.into_affine(), true)).unwrap_or_default()
+                    }, 2),
+                ];
+                for (what, o, rf, k) in variants {
+                    let terms: Vec<Vec<u8>> = (0..k).map(|_| one.clone()).collect();
+                    // logged as a scalar-multiple event with exponent k: same tables, same reference comparison
+                    let po = <<Ours as Pairing>::$G as CurveGroup>::Affine::deserialize_compressed(&o[..]);
+                    let unc_o = po.as_ref().map(|p| ser(p, false)).unwrap_or_default();
+                    let pr = <<Refe as Pairing>::$G as CurveGroup>::Affine::deserialize_compressed(&rf[..]);
+                    let unc_r = pr.as_ref().map(|p| ser(p, false)).unwrap_or_default();
+                    emit(out, json!({"k":"blsmul","grp":$grp,"what":what,"terms":terms,"ours":o,"ref":rf,"ours_unc":unc_o,"ref_unc":unc_r,
+                        "ours_sum":o,"cross":true,"ground":true}));
+                }
+                // the stored generator equals its own re-parsed copy (limb-wise equality), and so do its coordinates
+                let rt_o = AO::deserialize_uncompressed(&ser(&go, false)[..]).map(|p| p == go).unwrap_or(false);
+                let rt_r = AR::deserialize_uncompressed(&ser(&gr, false)[..]).map(|p| p == gr).unwrap_or(false);
+                emit(out, json!({"k":"blsconst","name":format!("{} generator == deserialize(serialize(generator))", $grp),"ours":[rt_o as u8],"ref":[rt_r as u8]}));
+            }};
+        }
+        genops!(G1, "G1");
+        genops!(G2, "G2");
+    }
+    emit(out, json!({"k":"reset","build":BUILD}));
     // non-canonical coordinate strings (uncompressed readers, validated and unchecked)
     for (i, a) in sc.iter().enumerate().take(6 + n / 10) {
         let p1 = (g1o * so(a)).into_affine();
